@@ -6,10 +6,10 @@ from .mapfam import chain_strides, canon, val, vals
 import harness.gen_sub as G
 
 class SCase:
-    __slots__ = ('inst', 'ext', 'str', 'sl', 'stream', 'ops', 'impl', 'model', 'adm')
+    __slots__ = ('inst', 'ext', 'str', 'sl', 'stream', 'ops', 'impl', 'model', 'adm', 'h', 'id')
     def __init__(self, inst, ext, strides, sl, stream=''):
         self.inst, self.ext, self.str, self.sl, self.stream = inst, list(ext), strides, list(sl), stream
-        self.ops = ['info']; self.impl = []; self.model = []; self.adm = None
+        self.ops = ['info']; self.impl = []; self.model = []; self.adm = None; self.h = 0; self.id = 0
     @property
     def kind(self): return self.inst[0]
     @property
@@ -17,7 +17,7 @@ class SCase:
     def base(self):
         s = G.line_prefix(self.inst) + ' ext=%s' % C.fmt(self.ext)
         if self.str is not None: s += ' str=%s' % C.fmt(self.str)
-        return s + ' sl=' + ';'.join(self.sl)
+        return s + ' sl=' + ';'.join(self.sl) + ' h=%d id=%d' % (self.h, self.id)
     def pub(self):
         return dict(line=self.base(), source_layout=self.kind, index_type=self.T, extents=self.ext, strides=self.str, slices=self.sl, slice_kinds=self.inst[3], stream=self.stream)
     def out(self, op, side='impl'):
@@ -36,6 +36,8 @@ def slice_values(kind, e, rnd=None):
     elif kind == 'R': out = ['R:1:3'] if e >= 3 else []
     elif kind == 'S': out = ['S:%d:4:2' % o for o in range(0, e - 4 + 1)]
     elif kind == 'Q': out = ['Q:%d:5:2' % o for o in range(0, e - 5 + 1)]
+    elif kind == 'U': out = ['U:%d:%d:1' % (o, x) for o in range(e + 1) for x in range(0, e - o + 1)]
+    elif kind == 'Z': out = ['Z:%d:0:2' % o for o in range(e + 1)]
     return out
 
 def parse_slice(s):
@@ -121,7 +123,7 @@ def gen_cases(seed, tier, insts):
             for sl in combos:
                 st = chain_strides(rnd, ext) if kind == 'stride' else None
                 if st is not None and max(st + [0]) > H: continue
-                c = SCase(inst, ext, st, sl, 'exhaustive-small'); c.ops = ['info', 'alias']; cases.append(c)
+                c = SCase(inst, ext, st, sl, 'exhaustive-small'); c.ops = ['info', 'alias', 'mds']; c.h = rnd.choice([0, 10, 100]); c.id = rnd.randint(1, 9); cases.append(c)
     # boundary: large extents, boundary starts, huge slice strides (all-dynamic instances, run-time slice kinds)
     dyn = [i for i in insts if all(p is None for p in i[2]) and all(k in 'irfst' for k in i[3])]
     nb = 500 if not thorough else 6000
